@@ -8,6 +8,16 @@ ALL = ["C%02d" % i for i in range(1, 21)]
 
 # pid -> (category, level text, level note, technique, design_ref)
 CHECKS = {
+ "C19": ("proof",
+         "A transcription of subPlots/plot/assemble's range and audit.go's mood bookkeeping as lists of abstract gnuplot directives (Model/Plot.v) is proved equal to a filter-style statement of the property (Model/PlotSpec.v) for every cast, audience, mood list, act list and window, with one corollary per sentence of the statement (one time axis with the 5% margin, lanes = actors with data in cast order, boxes = members with data and without `only helps` in declaration order with one curve per watched variable with data then the audit rows, events on their own lanes, one band per non-clear mood period, one line per later act, zoomed copy iff the repeated act started). The theorem relates two descriptions of the same loops; the tie carries most of the detection value: the real assemble+plot+subPlots run on generated configurations and collected states, the .gp scripts are parsed strictly into directives and compared in Coq with the model and with a spec-only oracle (thorough adds end-to-end plays).",
+         "Trusted: Coq kernel+VM, harness+hook, the .gp parser. float64 rounding and %f formatting are not modelled (time stamps on a 10 ms grid, off clipping boundaries); gnuplot itself is not run.",
+         "Rocq/Coq proof (model = filter-style spec, by induction over the lists) + differential correspondence on parsed plot scripts",
+         "DESIGN.md section 6, C19"),
+ "C14": ("proof",
+         "Protocol part: a translator (goaccess2v, go/types, offline) regenerates on every run the read/write sites of 22 tracked shared cells in pkg/cmd, the call graph and the synchronisation skeleton of conduct/run/the start functions (goroutine starts, WaitGroup patterns, channel senders and closes); a reflective checker whose soundness is proved once shows by vm_compute that any two conflicting accesses are ordered by happens-before, made by the same sequential thread, both atomic or both under the registry mutex, that every site lies in a classified function and that the component map is closed under static calls. This is a theorem about the ownership protocol for all interleavings OF THE MODEL, not about Go's memory model. Detector part: generated plays (concurrent lines, several spotlights, auditors with variables, repeats, failures, -S) run in-process under the Go race detector; a report or an in-play panic is a failing input.",
+         "Trusted: Coq kernel+VM, the translator, the hand-written cell list, component map, base happens-before edges and the partition of sink.lastVal among spotlight readers. Real races are only exhibited by the detector on the schedules it sees. runConduct's one-minute hard-shutdown path is outside the model.",
+         "Rocq/Coq proof over translator-extracted access sites (reflective happens-before check) + race-detector plays; labelled partial by nature",
+         "DESIGN.md section 6, C14 and section 9"),
  "C17": ("proof",
          "25 theorems over Model/Retry.v: the back-off band (lo n <= retry_in n u <= hi n around min(I*M^n, Max), exact rationals, Go's truncating conversion), first attempt immediate, attempts counted and at most MaxRetries+1 for every label sequence mixing Next and NextCh, attempts never before the lower edge, Reset restores the fresh schedule, stopping when told, WithMaxAttempts (after fix 7eb790f): 0 <= calls <= n, at least one call when not stopped at start, nil iff a call succeeded. 'No attempt after close' is refuted with witnesses (Reset-then-close: known finding; the select race) and proved in its partial form. Tie: ~8,000 real retryIn samples with their exact jitter draws and ~330 real Next/NextCh/Reset/WithMaxAttempts runs per quick run, compared with the model and an independent oracle (only lower bounds on elapsed time are judged).",
          "Trusted: Coq kernel+VM, harness+hook. Assumed: float rounding (1 ns tolerance, magnitudes below 2^40 ns), int64 overflow, select/timer/channel semantics, single-goroutine use.",
